@@ -6,22 +6,44 @@ package vrt
 type Cell struct{ v int64 }
 
 //go:norace
+//go:noinline
 func (c *Cell) Add(d int64) int64 { c.v += d; return c.v }
 
 //go:norace
+//go:noinline
 func (c *Cell) Get() int64 { return c.v }
 
 //go:norace
+//go:noinline
 func (c *Cell) Set(v int64) { c.v = v }
 
 // Log is an append-only event list with the same exemption.
 type Log struct{ ev []string }
 
 //go:norace
+//go:noinline
 func (l *Log) Add(s string) { l.ev = append(l.ev, s) }
 
 //go:norace
+//go:noinline
 func (l *Log) Events() []string { return append([]string(nil), l.ev...) }
 
 //go:norace
+//go:noinline
 func (l *Log) Len() int { return len(l.ev) }
+
+// DetRand is a deterministic byte source (for uuid.SetRand); safe to share between managed threads.
+type DetRand struct{ n uint64 }
+
+//go:norace
+//go:noinline
+func (d *DetRand) Read(p []byte) (int, error) {
+	for i := 0; i < len(p); i += 8 {
+		d.n++
+		x := d.n*0x9E3779B97F4A7C15 + 0x1234567
+		for j := 0; j < 8 && i+j < len(p); j++ {
+			p[i+j] = byte(x >> (56 - 8*uint(j)))
+		}
+	}
+	return len(p), nil
+}
